@@ -11,7 +11,9 @@ Open Scope Z_scope.
 (* (a) For every handler ever started (resume point r = the LastLogID it was started with), the
    batches the exporter acknowledged, concatenated oldest first, are exactly r+1, r+2, ... :
    increasing, no gap, no repetition inside the epoch, each batch non-empty and increasing, and
-   every delivered id is a log of the ledger. *)
+   every delivered id is a log of the ledger.  (A page that a handler's un-awaited Accept goroutine
+   delivers after that handler halted — model event LateAccept — is recorded as a run of its own
+   whose resume point is the cursor of the handler that sent it.) *)
 Theorem C33_batches_in_order : forall ps evs r bs,
   let s := run ps evs in
   In (r, bs) (epochs s) ->
